@@ -3,6 +3,10 @@
 import json, os
 V = os.path.dirname(os.path.abspath(__file__))
 CHECKS = {
+ "C05": dict(
+  text="Randomised search (rapid) over model programs (schema fragment of C02 plus tuples, discriminated base types reached through properties and arrays, allOf compositions with container-typed members, property names that are not Go identifiers) x documents valid for the schema, biased to zero values and empty containers; oracle: schema-directed comparison of Marshal(Unmarshal(doc)) with doc under the three documented tolerances, and idempotence of the second pass. Eight root-cause classes of genuine losses/additions are listed known findings.",
+  note="Validity of documents is decided by the self-written schema validator; documents the generated model rejects belong to C02; date-time and duration values are compared by denoted value.",
+  tech="property-based testing (rapid): program generation + round-trip oracle (decode/encode) with idempotence"),
  "C02": dict(
   text="Randomised search (rapid) over model programs: specs of 4-9 definitions from the documented schema fragment are generated with the swagger binary built from the tree and compiled; every definition receives valid documents plus every single-position boundary mutation of them; oracle: generated decode+Validate verdict equals the go-openapi/validate schema validator's verdict (cross-checked by a self-written validator) modulo the documented tolerances. Six root-cause classes of genuine divergences are listed known findings; one was repaired.",
   note="Trusts go-openapi/validate as the reference; tolerances T1-T3 are encoded as stated in the evidence assumptions; programs that do not build are C01's subject.",
